@@ -60,15 +60,15 @@ def readName (kvs : List (Str × JVal)) : Except Err (Option Str) :=
 
 /-- `_check_hash_dict` -/
 def readHashRec : JVal → Except Err HashRec
-  | .obj kvs => kvs.mapM (fun (k, v) =>
-      match v with
-      | .str s => if isHex s then .ok (k, s) else .error .format
-      | _ => .error .format)
+  | .obj kvs => mapE (fun (kv : Str × JVal) =>
+      match kv.2 with
+      | .str s => if isHex s then .ok (kv.1, s) else .error .format
+      | _ => .error .format) kvs
   | _ => .error .format
 
 /-- `_validate_materials` / `_validate_products` -/
 def readArtifacts : JVal → Except Err Artifacts
-  | .obj kvs => kvs.mapM (fun (k, v) => do let h ← readHashRec v; pure (k, h))
+  | .obj kvs => mapE (fun (kv : Str × JVal) => (readHashRec kv.2).map (fun h => (kv.1, h))) kvs
   | _ => .error .format
 
 def readObj : JVal → Except Err (List (Str × JVal))
@@ -96,23 +96,25 @@ def tokOfJ : JVal → Tok
   | .str s => .str s
   | _ => .nonStr
 
+/-- One rule of a step / inspection: a list accepted by `unpack_rule`. -/
+def readRule : JVal → Except Err (List Str)
+  | .arr toks =>
+    match unpackRule (toks.map tokOfJ) with
+    | .ok _ => .ok (toks.filterMap (fun t => match t with | .str s => some s | _ => none))
+    | .error e => .error e
+  | _ => .error .format
+
 /-- `_validate_expected_materials`: a list of rules, each accepted by `unpack_rule`. -/
 def readRules : JVal → Except Err (List (List Str))
-  | .arr rules => rules.mapM (fun r =>
-      match r with
-      | .arr toks =>
-        match unpackRule (toks.map tokOfJ) with
-        | .ok _ => .ok (toks.filterMap (fun t => match t with | .str s => some s | _ => none))
-        | .error e => .error e
-      | _ => .error .format)
+  | .arr rules => mapE readRule rules
   | _ => .error .format
 
 /-- `_validate_pubkeys`: list of hex strings -/
 def readHexList : JVal → Except Err (List Str)
-  | .arr xs => xs.mapM (fun x =>
+  | .arr xs => mapE (fun x =>
       match x with
       | .str s => if isHex s then .ok s else .error .format
-      | _ => .error .format)
+      | _ => .error .format) xs
   | _ => .error .format
 
 def readInt : JVal → Except Err Int
@@ -253,10 +255,9 @@ def readPubKey (j : JVal) : Except Err PubKey :=
 
 /-- `_check_public_keys`: key ids are hex strings, values are public keys. -/
 def checkPublicKeys (keys : List (Str × JVal)) : Except Err Unit :=
-  keys.forM (fun (k, v) => do
-    if !isHex k then throw .format
-    let _ ← readPubKey v
-    pure ())
+  allE (fun (kv : Str × JVal) =>
+    if !isHex kv.1 then .error .format
+    else (readPubKey kv.2).map (fun _ => ())) keys
 
 /-- The names of steps and inspections must be pairwise distinct. -/
 def namesDistinct : List (Option Str) → Bool
@@ -270,11 +271,11 @@ def readLayout (data : JVal) : Except Err Layout :=
     let stepsJ ← match Dict.get? kvs (lit "steps") with
       | some (.arr xs) => pure xs
       | _ => throw .other            -- TypeError: 'NoneType' object is not iterable, …
-    let steps ← stepsJ.mapM readStep
+    let steps ← mapE readStep stepsJ
     let inspJ ← match Dict.get? kvs (lit "inspect") with
       | some (.arr xs) => pure xs
       | _ => throw .other
-    let inspect ← inspJ.mapM readInspection
+    let inspect ← mapE readInspection inspJ
     let keys ← readObj (getD kvs "keys" (.obj []))
     checkPublicKeys keys
     let readme ← match getD kvs "readme" (.str []) with
@@ -404,7 +405,7 @@ def Metadata.fromDict (data : JVal) (aux : Option EnvAux) : Except Err Metadata 
     else if hasKey kvs "signed" then do
       let sigsJ ← readArr (getD kvs "signatures" (.arr []))
       let signed ← readPayload .format (getD kvs "signed" (.obj []))
-      let sigs ← sigsJ.mapM readSigEntry
+      let sigs ← mapE readSigEntry sigsJ
       pure (.metablock sigs signed)
     else .error .invalidMetadata
   | _ => .error .other
